@@ -96,6 +96,53 @@ def run (c : Case) : String :=
       s!"res {c.id} traces={renderTraces (Ro.Share.traces s)} up={renderList up} drops={renderList (s.drops.map renderEv)} unhandled=- escaped=-"
   | _, _ => s!"res {c.id} bad-case"
 
+/-! ### kind=sharet: a subscriber re-subscribes from inside its terminal callback
+
+  `C!k` / `E<n>!k`: the source's terminal arrives and subscriber `k`, if this terminal reaches it, subscribes a new
+  subscriber from inside its callback.  Generated only with the reset flag of that terminal set: the proxy drops the
+  finished generation before it forwards the terminal (operator_connectable.go:134-152), the newcomer therefore
+  starts a fresh generation that shares nothing with the one being wound up, and the nested subscription is the
+  sequence `terminal, S` (the model's modelling assumption for this kind; the correspondence checks it case by
+  case).  The counters are read after the whole event. -/
+
+def splitBang (t : String) : String × Option Nat :=
+  match t.splitOn "!" with
+  | [a, b] => (a, b.toNat?)
+  | _ => (t, none)
+
+/-- desugar, deciding with the model whether subscriber `k` receives the terminal -/
+def desugarTerm (cfg : Cfg) : List String → List NEvent → List Bool → Option (List NEvent × List Bool)
+  | [], acc, rep => some (acc, rep)
+  | t :: rest, acc, rep =>
+    match splitBang t with
+    | (a, some k) =>
+      match parseEvent a with
+      | none => none
+      | some e =>
+        let before := ((Ro.Share.traces (Ro.Share.nrun cfg acc)).getD k []).length
+        let after := ((Ro.Share.traces (Ro.Share.nrun cfg (acc ++ [.plain e]))).getD k []).length
+        if after > before then desugarTerm cfg rest (acc ++ [.plain e, .plain .sub]) (rep ++ [false, true])
+        else desugarTerm cfg rest (acc ++ [.plain e]) (rep ++ [true])
+    | (_, none) =>
+      match parseNEvent t with
+      | none => none
+      | some e => desugarTerm cfg rest (acc ++ [e]) (rep ++ [true])
+
+def runTerm (c : Case) : String :=
+  let toks := let s := c.getD "ev" "-"; if s == "-" || s == "" then [] else s.splitOn ","
+  match parsePre (c.getD "pre" "-") with
+  | none => s!"res {c.id} bad-case"
+  | some pre =>
+    match parseCfg c pre with
+    | none => s!"res {c.id} unsupported"
+    | some cfg =>
+      match desugarTerm cfg toks [] [] with
+      | none => s!"res {c.id} bad-case"
+      | some (evs, rep) =>
+        let s := Ro.Share.nrun cfg evs
+        let up := ((Ro.Share.ncounters cfg {} evs).zip rep).filterMap fun (p, r) => if r then some s!"{p.1}/{p.2}" else none
+        s!"res {c.id} traces={renderTraces (Ro.Share.traces s)} up={renderList up} drops={renderList (s.drops.map renderEv)} unhandled=- escaped=-"
+
 /-! ### connectable -/
 
 open Ro.Connectable in
